@@ -82,6 +82,17 @@ Example live_iterator_holds_rows :
   a_live (wspec (h ++ [CloseV 0])) = [O 1 1 1].
 Proof. vm_compute. repeat split; reflexivity. Qed.
 
+(* non-vacuity of the end condition of a row-by-row evaluation: the evaluation has not begun after h1; the world changes while it
+   is consumed; when it reports the end, the instances that existed before it began and still exist were all handed out *)
+Example live_evaluation_ends_complete :
+  let h1 := [New 0 0 0; New 3 1 1; New 1 2 2; DeclV 0; StartV 0] in
+  let h2 := [NextV 0 (Some (Some 0)); New 2 3 3; Drop 2; Sweep; NextV 0 (Some (Some 3)); NextV 0 (Some (Some 1))] in
+  adm_run wch wfuel init (h1 ++ h2) = true /\ no_clear (h1 ++ h2) = true /\
+  next (wrun h1) = 3 /\ map o_id (live (wrun (h1 ++ h2))) = [0; 1; 3] /\
+  wout (wrun (h1 ++ h2)) (NextV 0 None) = OInst [] /\
+  snd (spec_step wch wfuel (wspec (h1 ++ h2)) (NextV 0 None)) = OInst [].
+Proof. vm_compute. repeat split; reflexivity. Qed.
+
 (* a history with reuse, a diamond instance, relations, declared / complete / repeated evaluations satisfies every hypothesis *)
 Definition sample_history : list op :=
   [New 0 0 0; New 3 1 1; DeclV 0; Relate 0 0 1 0 1; Drop 0; Sweep; New 2 0 0; Relate 2 0 1 0 1; QueryG 0; EvalV 0;
